@@ -164,6 +164,9 @@ def eval_oracle(vals):
 
 def replay(vals):
     """Concrete run of the real code; True iff it disagrees with the oracle."""
+    if isinstance(vals, dict) and vals.get('kind') == 'authoropts':
+        from . import authoropts
+        return authoropts.replay(vals)
     import bert_e.workflow.gitwaterflow as gwf
     common.install_common_stubs()
     _unset_module(gwf)
@@ -271,3 +274,7 @@ def check(rep):
                                 'code %s but statement says %s on %r'
                                 % ('passes' if r['passed'] else 'refuses',
                                    'refuse' if r['passed'] else 'pass', vals)))
+    # the per-author settings as a source of these bypasses (real loader + accessors)
+    from . import authoropts
+    authoropts.check(rep, 'C04', ['bypass_author_approval', 'bypass_peer_approval', 'bypass_leader_approval'])
+
